@@ -97,11 +97,16 @@ pub fn seed_scalar(class: u64, run_seed: u64) -> Option<Scalar> {
 /// Pedersen generators: standard ones with optional alternative H (pg_h = 1) or alternative G_k (pg_g = k >= 1)
 pub fn pedersen(t: usize, pg_h: u64, pg_g: u64) -> PedersenGens<P> {
     let mut pc = pedersen_std(t);
-    if pg_h != 0 {
+    if pg_h == 2 {
+        // only the CACHED ENCODING of H is altered (the record's fields are public): the point stays
+        pc.h_base_compressed = alt_point("H", pg_h).compress();
+    } else if pg_h != 0 {
         pc.h_base = alt_point("H", pg_h);
         pc.h_base_compressed = pc.h_base.compress();
     }
-    if pg_g == 100 {
+    if pg_g == 200 {
+        pc.g_base_compressed_vec[0] = alt_point("G", pg_g).compress();
+    } else if pg_g == 100 {
         // degenerate: the second blinding generator equals the first (two openings of one commitment exist)
         if t >= 2 {
             pc.g_base_vec[t - 1] = pc.g_base_vec[t - 2].clone();
